@@ -136,6 +136,12 @@ def collide_rule(ctx, rid, F, pushre, popre, apply_F):
                        ((e.kind == "store" and e.val is not None and sv_mentions(e.val, params[0])) or
                         (e.kind == "call" and e.args and sv_mentions(e.args[0], params[0]))) for e in ev)
             ctx.check(flow, rid, F, "the pushed value is handed to the popper", None, sig="value-flow")
+            # the popper's record is marked 'got a value': records are reused, a stale bEmpty = true from the owner's previous (failed) pop would
+            # make this pop report failure although it consumed the value
+            be = [e for e in ev if e.kind == "store" and sv_field_path(e.obj)[-1:] == ["bEmpty"]]
+            okb = any(strip_sv(e.obj) == params[1] and e.val == C(0) for e in be) and not any(strip_sv(e.obj) == params[0] for e in be)
+            ctx.check(okb, rid, F, "a collision marks the popper's record as successful (bEmpty = false on the pop record)", be[0].node if be else None,
+                      detail="bEmpty stores on this path: %s. %s" % ([(strip_sv(e.obj)[-1] if isinstance(strip_sv(e.obj), tuple) else strip_sv(e.obj), e.val) for e in be], R), sig="pop-marked")
         else:
             ctx.check(not done, rid, F, "a refused collision leaves both records pending", done[0].node if done else None, detail=R, sig="no-done-on-false")
     return n
